@@ -49,7 +49,7 @@ CLAIMED = {
         "resolve_binary_loc (recursive-alias error iff ...) are verified against callee contracts, never bodies.",
    note="Assumed: finite alias table (two cardinality axioms: card >= 0, inserting a new name decreases the unseen count by 1); "
         "what a callable / return_command alias does when run (external, may raise); expand_path is a pure function of one word (C04); "
-        "string-alias classification in Aliases.__setitem__ (lexer) not verified. Trusted: pyvc engine + models + z3/cvc5.",
+        "string-alias classification in Aliases.__setitem__ (lexer) not verified. Bounded stand-in (not proved): real Aliases.get on every table over 2 (thorough 3) names x {list alias, return_command alias} x heads: no alias body runs twice in a chain, the user's arguments come last once. Trusted: pyvc engine + models + z3/cvc5.",
    design="§3 C15"),
  "C05": dict(
    category="proof",
@@ -280,12 +280,12 @@ CLAIMED = {
         "contexts[1] only, at any nesting depth; visit_Import / visit_ImportFrom bind, for every clause, exactly the name Python binds (the alias, else the first dotted "
         "component / the imported name) in the innermost scope only (loop invariants); visit_AnnAssign, visit_NamedExpr, visit_Try bind their target / `except .. as` names "
         "before the sub-nodes are visited; visit_Delete never binds anything; visit_With / visit_For bind the `as` names of EVERY item (loop invariant over the items; items without `as` bind nothing) / the loop "
-        "target before the body is visited, in the innermost scope only; visit_ClassDef / visit_FunctionDef give the name to the enclosing scope, open a fresh EMPTY scope before "
+        "target before the body is visited, in the innermost scope only; visit_Lambda opens a fresh empty scope for its parameters, leaves the enclosing scopes alone and closes it again; visit_ClassDef / visit_FunctionDef give the name to the enclosing scope, open a fresh EMPTY scope before "
         "parameters are bound / the body is visited, and close it again; is_in_scope - the decision itself - answers True exactly when every name the node READS (names it binds itself "
         "excluded) is found in SOME scope of the stack (loop invariant over the reversed stack: the names still missing are those found in none of the scopes passed). Bounded stand-in (not proved): 12 binding forms x scope depths 0..2 (global: 1..3) x "
         "probe positions + del / parameter / class-body / session-name cases through the real Execer.parse, decision on a probe line `X -l` against Python's "
         "scoping rules.",
-   note="Two genuine defects repaired (fix: 2827a8d: a walrus inside an expression statement was not recorded; c760ec2: `import a.b` recorded the dotted path instead of a). Unverified: the name gathering "
+   note="Four genuine defects repaired (fix: 2827a8d: a walrus inside an expression statement was not recorded; c760ec2: `import a.b` recorded the dotted path instead of a; fa90dca: nested tuple / list assignment targets bound only their first names; e08f775: a lambda's parameters were not names of its body - `lambda x: not x` spawned `x`). Unverified: the name gathering "
         "helpers (gather_load_store_names - a ghost function in is_in_scope's contract -, gather_names, leftmostname), the callers of is_in_scope (visit_Expr / visit_BoolOp / visit_UnaryOp: bounded only), the $XONSH_BUILTINS_TO_CMD carve-outs, visit_Assign (bounded only); in visit_For / visit_With what gather_names / leftmostname return for a target is a ghost function, the with-body hypothesis on "
         "generic_visit (stack depth preserved), ctxupdate's generator argument in visit_FunctionDef (abstracted: assumed to touch the innermost scope only, "
         "which is ctxupdate's own verified contract), the three-phase parse and 'decision before anything runs' (Execer.parse / compile / exec), "
